@@ -123,15 +123,20 @@ WalkReplay(out, i, c, S, hi, m) ==
 C18Step(m, e) ==
     LET rq == e.in[1]
         S == {e.pre.stored[i].seq : i \in DOMAIN e.pre.stored}
-        lastSent == e.pre.ns - 1
+        \* a request numbered ahead of the expected number is answered all the same (the statement puts no condition on the
+        \* request's own number); the session first asks for what it missed itself: one new ResendRequest in front of the answer
+        ahead == rq.seq > e.pre.nr
+        ownRR == ahead /\ e.out # <<>> /\ e.out[1].type = "2" /\ IsNew(e.out[1])
+        lastSent == IF ownRR THEN e.pre.ns ELSE e.pre.ns - 1
         hi == IF rq.end = 0 THEN lastSent ELSE Min2(rq.end, lastSent)     \* numbers that must be covered
-        w == WalkReplay(e.out, 1, rq.begin, S, hi, m)
+        w == WalkReplay(e.out, IF ownRR THEN 2 ELSE 1, rq.begin, S, hi, m)
         tail == e.out # <<>> /\ e.out[Len(e.out)].type = "4" /\ e.out[Len(e.out)].gapfill
-    IN IF ~(e.e = "Recv" /\ e.in # <<>> /\ rq.type = "2" /\ rq.valid /\ rq.seq = e.pre.nr /\ m.logged /\ ~e.pre.shutdown
+    IN IF ~(e.e = "Recv" /\ e.in # <<>> /\ rq.type = "2" /\ rq.valid /\ rq.seq >= e.pre.nr /\ m.logged /\ ~e.pre.shutdown
+            /\ (ahead => e.pre.st \in {1, 12})     \* ahead while another exchange is under way (logon, logout): C19 / C20
             /\ rq.begin >= 1 /\ (rq.end = 0 \/ rq.end >= rq.begin))
        THEN [ok |-> TRUE, why |-> "", sig |-> "", m |-> m]
-       ELSE IF ~w.ok THEN [ok |-> FALSE, why |-> w.why, sig |-> w.sig, m |-> m]
-       ELSE IF w.c <= hi THEN [ok |-> FALSE, why |-> "range_not_covered", sig |-> "range_not_covered", m |-> m]
+       ELSE IF ~w.ok THEN [ok |-> FALSE, why |-> w.why, sig |-> w.sig \o (IF ahead THEN ":request_ahead" ELSE ""), m |-> m]
+       ELSE IF w.c <= hi THEN [ok |-> FALSE, why |-> "range_not_covered", sig |-> "range_not_covered" \o (IF ahead THEN ":request_ahead" ELSE ""), m |-> m]
        ELSE IF tail /\ e.post.ns # e.out[Len(e.out)].newseq
             THEN [ok |-> FALSE, why |-> "next_send_not_last_newseqno", sig |-> "continue_after_gapfill", m |-> m]
        ELSE [ok |-> TRUE, why |-> "", sig |-> "", m |-> m]
